@@ -91,9 +91,13 @@ func outputTupleDir(v rel.Value, dir string, fs afero.Fs, dryRun bool) error {
 		return err
 	}
 	if _, err := fs.Stat(dir); os.IsNotExist(err) {
-		if err := fs.Mkdir(dir, 0755); err != nil {
-			return err
+		if !dryRun {
+			if err := fs.Mkdir(dir, 0755); err != nil {
+				return err
+			}
 		}
+	} else if err != nil {
+		return err
 	}
 
 	// this is to allow empty directory
